@@ -280,7 +280,7 @@ def last_call_memos(run, rule, mi, name, fn):
     return n
 
 
-def check_caches(run, modules, rule, functions=None):
+def check_caches(run, modules, rule, functions=None, prog=None):
     """modules: iterable of ModuleInfo. Reports stores into shared containers whose key misses a dependency."""
     run.describe(rule, 'values cached in module-level or instance-held containers are keyed by every parameter they depend on, at the '
                        'granularity the value uses (results depend on the arguments only)')
@@ -342,5 +342,18 @@ def check_caches(run, modules, rule, functions=None):
                     edges = _value_edges(fn)
                 nstores += 1
                 _judge(run, rule, mi, name, fn, t, st.value, st, cont_txt, kind, edges, params, memo)
+    if prog is not None:
+        # values memoised in a field / derived once in the constructor follow the fields they were computed from (shared memo rules)
+        from .effects import Effects
+        from .rules._memo import check_inline_memos, check_ctor_derived, selfcheck
+        selfcheck()
+        eff = Effects(prog)
+        mods = {id(m) for m in modules}
+        classes = sorted((c for c in prog.classes.values() if id(c.mod) in mods), key=lambda c: c.qual)
+        try:
+            nstores += check_inline_memos(run, rule, prog, eff, classes, describe=False)
+            nstores += check_ctor_derived(run, rule, prog, eff, classes)
+        except RecursionError:
+            run.undecided(rule, 'memo rules', 'class graph too deep')
     run.subject(rule)
     run.ok(rule, 'shared containers', '%d containers, %d keyed stores from functions' % (ncont, nstores), sample=(nstores == 0))
